@@ -490,6 +490,9 @@ where
     SP: StateSpace<StateType = S> + Clone + 'static,
 {
     let params = real_params(r, o, extent);
+    // a quarter of the worlds have a wide goal region: goal samples then differ a lot from draw to draw, so the
+    // node nearest to one goal sample is not the node nearest to the next
+    let goal_radius = if r.chance(0.25) { goal_radius * 4.0 } else { goal_radius };
     let mut checkers = vec![];
     let mut obs_desc = vec![];
     for vi in 0..2u32 {
@@ -948,7 +951,14 @@ where
         maxd: q(extent * *r.pick(&[0.05, 0.1, 0.2, 0.5])).max(1.0 / 64.0),
         bias: *r.pick(&[0.0, 0.0625, 0.25]),
         radius: q(extent * *r.pick(&[0.15, 0.3, 0.6])).max(1.0 / 64.0),
-        seed: Some(r.next() % 100000),
+        // seeds over the whole u64 range: small, above 2^53 (not representable as a double), around 2^63, 2^64-1
+        seed: Some(match r.below(6) {
+            0 | 1 => r.next() % 100000,
+            2 => (1u64 << 53) + 1 + 2 * (r.next() % 1000),
+            3 => r.next() | 1,
+            4 => (1u64 << 63) + (r.next() % 3),
+            _ => u64::MAX - (r.next() % 2),
+        }),
         build_secs: 0.05,
     };
     // obstacles: at most two boxes, generously away from nothing in particular; worlds stay feasible most of the time
@@ -976,7 +986,7 @@ where
             l.push(c - w / 2.0);
             h.push(c + w / 2.0);
         }
-        Some((r.pick(&["raise", "none", "nonbool", "str"]).to_string(), BoxObs { lo: l, hi: h }))
+        Some((r.pick(&["raise", "none", "nonbool", "str", "tuple", "int1", "float", "obj", "zero", "empty", "npbool"]).to_string(), BoxObs { lo: l, hi: h }))
     } else {
         None
     };
